@@ -78,7 +78,8 @@ def eligibility_spec(draw, ids, style=None):
     rows.append(['extra2'] + list(ROWS7[draw(st.sampled_from([1, 2, 4]))]))        # non-excludable geo absent -> ValueError
   order = list(draw(st.permutations(list(range(len(rows))))))
   rows = [rows[i] for i in order]
-  return {'rows': rows, 'as_index': draw(st.booleans()), 'style': style}
+  return {'rows': rows, 'as_index': draw(st.booleans()), 'style': style,
+          'col_order': list(draw(st.permutations(['control', 'treatment', 'exclude']))) if draw(st.booleans()) else None}
 
 
 @st.composite
